@@ -18,7 +18,7 @@ sys.path.insert(0, os.path.dirname(os.path.abspath(__file__)))
 VERIF_ROOT = os.path.dirname(os.path.dirname(os.path.abspath(__file__)))
 from rustsrc import Source, Item, ExtractError, mask, match_close, loop_headers, split_args  # noqa: E402
 
-SECTION_KEYS = ('slow', 'loopproof', 'proof_begin', 'assumed_from', 'props', 'requires', 'ensures', 'decreases', 'invariant', 'loopdec', 'proof', 'returns', 'attr',
+SECTION_KEYS = ('loopensures', 'enumerate_loop', 'ghost_begin', 'derive-', 'slow', 'loopproof', 'proof_begin', 'assumed_from', 'props', 'requires', 'ensures', 'decreases', 'invariant', 'loopdec', 'proof', 'returns', 'attr',
                 'derive+', 'nested', 'specialize', 'novac', 'external_body', 'rename', 'recommends', 'loopiter',
                 'opens_invariants', 'no_unwind')
 
@@ -31,13 +31,16 @@ class Contract:
         self.decreases = []
         self.invariants = {}    # loop ordinal -> list of clauses
         self.loopdec = {}       # loop ordinal -> list of clauses
+        self.loopensures = {}   # loop ordinal -> list of clauses (loops with `break`)
         self.loopiter = {}      # loop ordinal -> name for `for x in NAME: expr`
         self.proof = None       # text
         self.proof_begin = None
+        self.ghost_begin = None   # ghost `let` statements at the very beginning of the body
         self.loopproof = {}     # loop ordinal -> proof text placed at the beginning of the loop body
         self.returns = None
         self.attrs = []
         self.derive_add = []
+        self.derive_del = []
         self.nested = {}        # name -> Contract
         self.specialize = None  # (dict param->fn, newname)
         self.novac = False
@@ -45,6 +48,7 @@ class Contract:
         self.rename = None
         self.no_unwind = False
         self.assumed_from = None
+        self.enumerate_loops = []   # R6: loop ordinals to desugar from `.iter().enumerate()`
         self.slow = False       # verified in the thorough tier only (assumed, external_body, in the quick tier)
         self.props = None       # property ids this item's semantic clauses serve (None: unit default)
 
@@ -138,6 +142,9 @@ class Unit:
             if key == 'loopproof':
                 c.loopproof[arg] = (c.loopproof.get(arg, '') + '\n' if c.loopproof.get(arg) else '') + text
                 return
+            if key == 'ghost_begin':
+                c.ghost_begin = (c.ghost_begin + '\n' if c.ghost_begin else '') + text
+                return
             if key == 'proof_begin':
                 c.proof_begin = (c.proof_begin + '\n' if c.proof_begin else '') + text
                 return
@@ -155,6 +162,8 @@ class Unit:
                 c.invariants.setdefault(arg, []).append(text)
             elif key == 'loopdec':
                 c.loopdec.setdefault(arg, []).append(text)
+            elif key == 'loopensures':
+                c.loopensures.setdefault(arg, []).append(text)
 
         while i < len(lines):
             raw = lines[i]
@@ -206,25 +215,25 @@ class Unit:
                 continue
             if cur is None:
                 continue
-            in_proof = section is not None and section[0] in ('proof', 'proof_begin', 'loopproof')
+            in_proof = section is not None and section[0] in ('proof', 'proof_begin', 'loopproof', 'ghost_begin')
             if not line or ((line == '#' or line.startswith('# ')) and not in_proof):
                 if in_proof and buf is not None:
                     buf.append(raw)
                 continue
             first = line.split()[0]
             indent = len(raw) - len(raw.lstrip())
-            is_key = first in SECTION_KEYS and (section is None or section[0] not in ('proof', 'proof_begin', 'loopproof') or indent <= 2)
-            if is_key and (clause_indent is None or indent < clause_indent or section is None or section[0] in ('proof', 'proof_begin', 'loopproof')):
+            is_key = first in SECTION_KEYS and (section is None or section[0] not in ('proof', 'proof_begin', 'loopproof', 'ghost_begin') or indent <= 2)
+            if is_key and (clause_indent is None or indent < clause_indent or section is None or section[0] in ('proof', 'proof_begin', 'loopproof', 'ghost_begin')):
                 flush_clause()
                 rest = line[len(first):].strip()
                 c = target()
                 if first in ('requires', 'ensures', 'decreases', 'recommends'):
                     section = (first, None)
                     clause_indent = None
-                elif first in ('invariant', 'loopdec'):
+                elif first in ('invariant', 'loopdec', 'loopensures'):
                     section = (first, int(rest))
                     clause_indent = None
-                elif first in ('proof', 'proof_begin'):
+                elif first in ('proof', 'proof_begin', 'ghost_begin'):
                     section = (first, None)
                     clause_indent = None
                     buf = []
@@ -243,6 +252,9 @@ class Unit:
                     section = None
                 elif first == 'attr':
                     c.attrs.append(rest)
+                    section = None
+                elif first == 'derive-':
+                    c.derive_del += rest.replace(',', ' ').split()
                     section = None
                 elif first == 'derive+':
                     c.derive_add += rest.replace(',', ' ').split()
@@ -267,6 +279,9 @@ class Unit:
                 elif first == 'slow':
                     c.slow = True
                     section = None
+                elif first == 'enumerate_loop':
+                    c.enumerate_loops.append(int(rest))
+                    section = None
                 elif first == 'no_unwind':
                     c.no_unwind = True
                     section = None
@@ -283,7 +298,7 @@ class Unit:
                 continue
             if section is None:
                 raise ExtractError('%s:%d: text outside a section: %s' % (self.path, i, line))
-            if section[0] in ('proof', 'proof_begin', 'loopproof'):
+            if section[0] in ('proof', 'proof_begin', 'loopproof', 'ghost_begin'):
                 buf.append(raw)
                 continue
             if clause_indent is None:
@@ -395,7 +410,31 @@ class Emitter:
         head = head[:kwline] + attrs + head[kwline:]
         return begin + head + '\n' + spec + body + '//@@end %s' % fnid + tail
 
+    def desugar_enumerate(self, body, k, fnid):
+        """R6: `for (i, x) in E.iter().enumerate() { B }`  ->  `let mut i: usize = 0; while i < E.len() { let x = &E[i]; B  i += 1; }`
+        (only when B contains no `continue`; `break` keeps its meaning)."""
+        masked = mask(body)
+        loops = loop_headers(body, masked)
+        if k > len(loops):
+            raise ExtractError('%s: enumerate_loop %d but only %d loops' % (fnid, k, len(loops)))
+        kw, br, kind = loops[k - 1]
+        header = body[kw:br]
+        mm = re.match(r'for\s*\(\s*(\w+)\s*,\s*(\w+)\s*\)\s+in\s+(.+?)\.iter\(\)\s*\.enumerate\(\)\s*$', header.strip(), re.S)
+        if kind != 'for' or not mm:
+            raise ExtractError('%s: loop %d is not of the form `for (i, x) in E.iter().enumerate()` (R6 not applicable)' % (fnid, k))
+        i, x, e = mm.group(1), mm.group(2), ' '.join(mm.group(3).split())
+        close = match_close(masked, br)
+        inner = masked[br + 1:close]
+        if re.search(r'\bcontinue\b', inner):
+            raise ExtractError('%s: loop %d contains `continue` (R6 not applicable)' % (fnid, k))
+        new = ('let mut %s: usize = 0;\n    while %s < %s.len() {\n        let %s = &%s[%s];' % (i, i, e, x, e, i)
+               + body[br + 1:close].rstrip() + '\n        %s += 1;\n    }' % i)
+        self.rules.add('R6')
+        return body[:kw] + new + body[close + 1:]
+
     def render_body(self, body, contract, fnid):
+        for k in contract.enumerate_loops:
+            body = self.desugar_enumerate(body, k, fnid)
         masked = mask(body)
         edits = []   # (pos, text) insertions
         # nested fns: render recursively and replace
@@ -428,6 +467,7 @@ class Emitter:
         for k, (kw, br, kind) in enumerate(own_loops, start=1):
             inv = contract.invariants.get(k)
             dec = contract.loopdec.get(k)
+            lens = contract.loopensures.get(k)
             if k in contract.loopiter:
                 if kind != 'for':
                     raise ExtractError('%s: loopiter on non-for loop %d' % (fnid, k))
@@ -436,15 +476,18 @@ class Emitter:
             if k in contract.loopproof:
                 ptxt = '\n' + mark('        proof {\n' + contract.loopproof[k] + '\n        }', fnid + '::proof')
                 edits.append((br + 1, ptxt))
-            if inv or dec:
+            if inv or dec or lens:
                 ins = '\n'
-                ins += clause_block('invariant', inv or [], fnid, 'inv%d' % k, indent='        ')
+                ins += clause_block('invariant_except_break' if lens else 'invariant', inv or [], fnid, 'inv%d' % k, indent='        ')
+                ins += clause_block('ensures', lens or [], fnid, 'lens%d' % k, indent='        ')
                 ins += clause_block('decreases', dec or [], fnid, 'ldec%d' % k, indent='        ')
                 edits.append((br, ins + '    '))
                 used.add(k)
         for k in list(contract.invariants) + list(contract.loopdec) + list(contract.loopiter) + list(contract.loopproof):
             if k > len(own_loops):
                 raise ExtractError('%s: contract names loop %d but the function has %d loops (anchor lost)' % (fnid, k, len(own_loops)))
+        if contract.ghost_begin:
+            edits.append((1, '\n' + mark(contract.ghost_begin, fnid + '::proof')))
         if contract.proof_begin:
             ptxt = '\n' + mark('    proof {\n' + contract.proof_begin + '\n    }', fnid + '::proof')
             edits.append((1, ptxt))
@@ -511,6 +554,14 @@ class Emitter:
         if spec.kind in ('struct', 'enum', 'const', 'static', 'type'):
             it = s.find(spec.kind, spec.name)
             text = strip_docs(it.text)
+            if c.derive_del:
+                def rem(mm):
+                    items = [x.strip() for x in mm.group(1).split(',') if x.strip() and x.strip() not in c.derive_del]
+                    return '#[derive(' + ', '.join(items) + ')]'
+                text, n = re.subn(r'#\[derive\(([^)]*)\)\]', rem, text, count=1)
+                if n != 1:
+                    raise ExtractError('%s: derive- but no derive attribute' % spec.name)
+                self.rules.add('R11')
             if c.derive_add:
                 def add(mm):
                     return '#[derive(' + mm.group(1).rstrip().rstrip(',') + ', ' + ', '.join(c.derive_add) + ')]'
